@@ -34,10 +34,20 @@
   argument; `__call__` itself is not modelled (it is C01–C08), so sameness is proved for every
   function `apply` of the instance (`IgnoresBuildOnly apply` for the unconditional statement).
 
+  Strengthening round (last section of this file): the instance is extended by the hidden
+  attributes `__init__` derives (`_min_exp`, `_max_exp`, `freeze_scale`), constructed / rebuilt /
+  called in an explicit process state (`World`: sigmoid switch, image data format, learning
+  phase) and possibly used (`Step`) before `get_config()` is taken:
+    * `C09_hidden_state_roundtrip`, `C09_config_fixed_point`, `C09_history_same_function`,
+      `C09_constructor_world_independent`, `C09_sigmoid_mode_not_captured`;
+    * the Keras pair vs the form an option value is held in: `C09_keras_plain_forms_partial` and the
+      two `_counterexample` theorems (tf.Tensor options; quantized_linear's qnoise_factor variable).
+
   This file holds ONLY property theorems and non-vacuity examples.
-  Model: QKV.Model.PyVal / QKV.Model.Config.
+  Model: QKV.Model.PyVal / QKV.Model.Config / QKV.Model.ConfigState.
 -/
 import QKV.Lemmas.Config
+import QKV.Lemmas.ConfigState
 namespace QKV.Props.C09
 open QKV.Py
 
@@ -425,5 +435,273 @@ example (c : Cls) : ∃ q, Reachable q ∧ q.cls = c ∧ Serializable q ∧ rebu
 example : IgnoresBuildOnly (fun q : Q => (q.cls, q.get "scale_axis")) := by
   intro a b hc h
   simp only [hc, h "scale_axis" (by decide)]
+
+/-! ## strengthening round: hidden per-instance state, process-level state, histories, forms
+
+  The instance is now `Inst` = stored constructor arguments + the hidden attributes `__init__`
+  derives from them (`_min_exp` / `_max_exp` of the two po2 classes, `freeze_scale`), built and
+  rebuilt in an explicit process state `World` (sigmoid approximation, image data format,
+  learning phase) and possibly USED before `get_config()` is taken (`Step`).  "Same function" is
+  proved for every `apply : World → Inst → α` — what a call made in any later world computes —
+  that ignores the two build-only options. -/
+
+/-- `i` was produced by the class constructor, in some world, from some arguments -/
+def ReachableI (i : Inst) : Prop := ∃ w args kw, constructI w i.q.cls args kw = .ok i
+
+def rebuildDirectI (w : World) (i : Inst) : Except Err Inst := fromConfigI w i.q.cls (getConfig i.q)
+def rebuildViaGetQuantizerI (w : World) (i : Inst) : Except Err Inst :=
+  getQuantizerDictI w (serialize i.q)
+
+/-- `apply` reads the world of the call, the class, the stored options other than
+    `var_name` / `use_variables`, and the hidden attributes -/
+def IgnoresBuildOnlyI {α : Type} (apply : World → Inst → α) : Prop :=
+  ∀ (w : World) (a b : Inst), a.q.cls = b.q.cls → (∀ k, k ∉ buildOnly → a.q.get k = b.q.get k) →
+    a.hid = b.hid → apply w a = apply w b
+
+theorem C09_serialize_dict_world (w : World) (i : Inst) :
+    rebuildViaGetQuantizerI w i = rebuildDirectI w i := by
+  unfold rebuildViaGetQuantizerI rebuildDirectI getQuantizerDictI serialize
+  simp only [C09_registry_class]
+
+/-- the constructors read no process-level state: the same arguments give the same instance
+    (fields and hidden attributes) whatever `set_internal_sigmoid` / `set_image_data_format` /
+    the learning phase were when it ran -/
+theorem C09_constructor_world_independent (w w' : World) (c : Cls) (args : List PyVal) (kw : Env) :
+    constructI w c args kw = constructI w' c args kw := rfl
+
+/-- the `Inst` constructor is the `Q` constructor of the theorems above plus the hidden state -/
+theorem C09_constructI_fields (w : World) (c : Cls) (args : List PyVal) (kw : Env) :
+    (constructI w c args kw).map Inst.q = construct c args kw := constructI_q w c args kw
+
+/-- **Round trip of a canonical instance** (the invariant `Canon`: exactly the signature's keys,
+    checks pass, normalisations applied, hidden attributes consistent with the stored fields).
+    Rebuilt in ANY world by either route: no exception; same class; same value of every option
+    other than `var_name` / `use_variables`; the SAME hidden attributes; the same `get_config()`;
+    the rebuilt instance is canonical again; and every call-time function of the instance that
+    ignores the build-only options coincides in every later world. -/
+theorem C09_canon_roundtrip (i : Inst) (h : Canon i) (w1 : World) :
+    ∃ i', rebuildDirectI w1 i = .ok i' ∧ rebuildViaGetQuantizerI w1 i = .ok i' ∧
+      i'.q.cls = i.q.cls ∧ (∀ k, k ∉ buildOnly → i'.q.get k = i.q.get k) ∧ i'.hid = i.hid ∧
+      getConfig i'.q = getConfig i.q ∧ Canon i' ∧
+      ∀ {α : Type} (apply : World → Inst → α), IgnoresBuildOnlyI apply →
+        ∀ w2 : World, apply w2 i' = apply w2 i := by
+  have h1 := canon_rebuild w1 h
+  have hser : ∀ k ∈ serialised i.q.cls,
+      (normInit i.q.cls (forget i.q.cls i.q.env)).get k = i.q.env.get k :=
+    fun k hk => roundtrip_get_serialised h.1 h.init_fixed hk
+  have hget : ∀ k, k ∉ buildOnly →
+      (normInit i.q.cls (forget i.q.cls i.q.env)).get k = i.q.env.get k := by
+    intro k hk
+    by_cases hp : k ∈ paramNames i.q.cls
+    · by_cases hs : k ∈ serialised i.q.cls
+      · exact hser k hs
+      · exact absurd (C09_dropped_build_only i.q.cls k (mem_dropped.2 ⟨hp, hs⟩)) hk
+    · have h0 : ∀ e : Env, e.keys = paramNames i.q.cls → e.get k = .none := by
+        intro e he
+        unfold Env.get
+        rw [lookup_none_of_not_mem (by rw [← he] at hp; exact hp)]
+        rfl
+      rw [h0 _ (by rw [norm_keys, forget_keys]), h0 _ h.1]
+  have hcanon : Canon ⟨⟨i.q.cls, normInit i.q.cls (forget i.q.cls i.q.env)⟩, i.hid⟩ := by
+    refine ⟨by show (normInit _ _).keys = _; rw [norm_keys, forget_keys], ?_⟩
+    show initI i.q.cls (normInit i.q.cls (forget i.q.cls i.q.env)) = _
+    have hc : check i.q.cls (normInit i.q.cls (forget i.q.cls i.q.env)) = none := by
+      rw [check_norm, check_forget]; exact h.check
+    rw [initI_of_check hc, norm_norm, hidden_norm, hidden_forget, ← h.hid_eq]
+  refine ⟨_, h1, (C09_serialize_dict_world w1 i).trans h1, rfl, hget, rfl, ?_, hcanon, ?_⟩
+  · exact getConfig_congr (q' := ⟨i.q.cls, _⟩) rfl hser
+  · intro α apply ha w2
+    exact ha w2 _ i rfl hget rfl
+
+/-- a freshly constructed instance is canonical -/
+theorem C09_reachable_canon (i : Inst) (hr : ReachableI i) : Canon i := by
+  obtain ⟨w, args, kw, h⟩ := hr
+  exact (canon_of_constructI h).2
+
+/-- **Hidden state survives the round trip**: the attributes `__init__` derives from its
+    arguments (`_min_exp`, `_max_exp`, `freeze_scale`) are the same in the rebuilt quantizer —
+    they are functions of serialised options which no normalisation touches. -/
+theorem C09_hidden_state_roundtrip (i i' : Inst) (hr : ReachableI i) (w1 : World)
+    (h : rebuildDirectI w1 i = .ok i') : i'.hid = i.hid := by
+  obtain ⟨j, hj, -, -, -, hh, -⟩ := C09_canon_roundtrip i (C09_reachable_canon i hr) w1
+  rw [hj] at h; cases h; exact hh
+
+/-- the exponent range of the two power-of-two quantizers, explicitly -/
+theorem C09_po2_exponent_range_roundtrip (i i' : Inst) (hr : ReachableI i) (w1 : World)
+    (h : rebuildDirectI w1 i = .ok i') :
+    i'.hid.get "_min_exp" = i.hid.get "_min_exp" ∧ i'.hid.get "_max_exp" = i.hid.get "_max_exp" := by
+  rw [C09_hidden_state_roundtrip i i' hr w1 h]; exact ⟨rfl, rfl⟩
+
+/-- **The configuration is a fixed point**: `get_config()` of the rebuilt quantizer is the
+    configuration it was rebuilt from, and rebuilding the rebuilt quantizer returns it unchanged
+    (`rebuild ∘ get_config` is idempotent). -/
+theorem C09_config_fixed_point (i i' : Inst) (hr : ReachableI i) (w1 w2 : World)
+    (h : rebuildDirectI w1 i = .ok i') :
+    getConfig i'.q = getConfig i.q ∧ rebuildDirectI w2 i' = .ok i' := by
+  obtain ⟨j, hj, -, hcls, hget, hh, hcfg, hcan, -⟩ :=
+    C09_canon_roundtrip i (C09_reachable_canon i hr) w1
+  rw [hj] at h; cases h
+  refine ⟨hcfg, ?_⟩
+  -- the rebuilt instance holds the defaults of the two build-only options
+  have hcr := canon_rebuild w1 (C09_reachable_canon i hr)
+  unfold rebuildDirectI at hj
+  rw [hcr] at hj
+  cases hj
+  have hs : ∀ k ∈ dropped i.q.cls,
+      (normInit i.q.cls (forget i.q.cls i.q.env)).get k = defaultOf i.q.cls k := by
+    intro k hk
+    have hne : k ≠ "symmetric" := by
+      rintro rfl
+      have h2 := (mem_dropped.1 hk).2
+      have h1 := (mem_dropped.1 hk).1
+      revert h1 h2
+      cases i.q.cls <;> decide
+    rw [norm_get_ne _ _ hne]
+    exact forget_get_dropped _ hk
+  have h2 := canon_rebuild w2 hcan
+  unfold rebuildDirectI
+  rw [h2]
+  simp only
+  rw [forget_eq_self hcan.1 hs, hcan.norm_fixed]
+
+/-- **Same function after any history, across any switch of the process-level state.**
+    Construct in world `w0`; use the object (`__call__`, `_set_trainable_parameter()` as a layer
+    does, `update_qnoise_factor`) and switch the process-level state in any order; take
+    `get_config()`; rebuild by either route in whatever world `w` the history ended in; call
+    both in any later world `w2`: same class, same options (build-only aside), same hidden
+    attributes, same configuration, same value of every call-time function. -/
+theorem C09_history_same_function (w0 : World) (c : Cls) (args : List PyVal) (kw : Env)
+    (i0 : Inst) (hcon : constructI w0 c args kw = .ok i0) (steps : List Step) :
+    let s := runHistory (w0, i0) steps
+    ∃ i', rebuildDirectI s.1 s.2 = .ok i' ∧ rebuildViaGetQuantizerI s.1 s.2 = .ok i' ∧
+      i'.q.cls = c ∧ (∀ k, k ∉ buildOnly → i'.q.get k = s.2.q.get k) ∧ i'.hid = s.2.hid ∧
+      getConfig i'.q = getConfig s.2.q ∧
+      ∀ {α : Type} (apply : World → Inst → α), IgnoresBuildOnlyI apply →
+        ∀ w2 : World, apply w2 i' = apply w2 s.2 := by
+  intro s
+  have hc0 := canon_of_constructI hcon
+  have hcan : Canon s.2 := canon_runHistory (s := (w0, i0)) hc0.2 steps
+  have hcls : s.2.q.cls = c := (runHistory_cls (w0, i0) steps).trans hc0.1
+  obtain ⟨i', h1, h2, h3, h4, h5, h6, -, h8⟩ := C09_canon_roundtrip s.2 hcan s.1
+  exact ⟨i', h1, h2, h3.trans hcls, h4, h5, h6, h8⟩
+
+/-- the effective sigmoid approximation of a call is the one of the world the call is made in,
+    for the original and for the rebuilt quantizer alike (nothing was captured at construction
+    or at rebuild time) -/
+theorem C09_sigmoid_mode_not_captured (i i' : Inst) (hr : ReachableI i) (w1 w2 : World)
+    (h : rebuildDirectI w1 i = .ok i') : effSigmoid w2 i' = effSigmoid w2 i := by
+  obtain ⟨j, hj, -, hcls, hget, -⟩ := C09_canon_roundtrip i (C09_reachable_canon i hr) w1
+  rw [hj] at h; cases h
+  have hq : readsSigmoid i'.q = readsSigmoid i.q := by
+    unfold readsSigmoid
+    rw [hcls, hget "use_real_sigmoid" (by decide), hget "use_sigmoid" (by decide),
+      hget "use_real_tanh" (by decide)]
+  unfold effSigmoid
+  rw [hq]
+
+/-- why the hidden state is in the model: the exponent range really depends on `max_value`
+    crossing 1 — `quantized_relu_po2(bits=1, max_value=2)` has range [-1, 0], with `max_value=1`
+    it is [-2, 1]; a constructor that stored a clamped `max_value` would break the round trip -/
+theorem C09_po2_range_reads_max_value_witness :
+    hiddenInit .quantized_relu_po2 [("bits", .int 1), ("max_value", .int 2),
+        ("quadratic_approximation", .bool false)]
+      = [("_min_exp", .int (-1)), ("_max_exp", .int 0)] ∧
+    hiddenInit .quantized_relu_po2 [("bits", .int 1), ("max_value", .int 1),
+        ("quadratic_approximation", .bool false)]
+      = [("_min_exp", .int (-2)), ("_max_exp", .int 1)] ∧
+    hiddenInit .quantized_po2 [("bits", .int 1), ("max_value", .none),
+        ("quadratic_approximation", .bool true)]
+      = [("_min_exp", .float (-1 / 2)), ("_max_exp", .float (-2))] := by
+  refine ⟨?_, ?_, ?_⟩ <;> decide +kernel
+
+/-- a quantizer handed to a layer: `quantized_bits()` after `_set_trainable_parameter()` holds
+    alpha="auto_po2", symmetric=True, freeze_scale=False and rebuilds as exactly that -/
+theorem C09_set_trainable_roundtrip_witness :
+    ∃ i i', constructI {} .quantized_bits [] [] = .ok i ∧
+      (setTrainable i).q.get "alpha" = .str "auto_po2" ∧
+      (setTrainable i).hid = [("freeze_scale", .bool false)] ∧
+      rebuildDirectI {} (setTrainable i) = .ok i' ∧ i'.hid = (setTrainable i).hid ∧
+      i'.q = (setTrainable i).q := by
+  have h : (match constructI {} .quantized_bits [] [] with
+      | .ok i => (match rebuildDirectI {} (setTrainable i) with
+          | .ok i' => decide ((setTrainable i).q.get "alpha" = .str "auto_po2") &&
+              decide ((setTrainable i).hid = [("freeze_scale", .bool false)]) &&
+              decide (i'.hid = (setTrainable i).hid) && decide (i'.q = (setTrainable i).q)
+          | .error _ => false)
+      | .error _ => false) = true := by decide +kernel
+  split at h
+  · rename_i i hi
+    split at h
+    · rename_i i' hi'
+      simp only [Bool.and_eq_true, decide_eq_true_eq] at h
+      exact ⟨i, i', hi, h.1.1.1, h.1.1.2, hi', h.1.2, h.2⟩
+    · cases h
+  · cases h
+
+/-! ### value forms through the Keras serialize / deserialize pair -/
+
+/-- **Keras pair, partial.**  When every stored option is a python literal, a numpy scalar or
+    an ndarray — or a `tf.Variable` holding `qnoise_factor` in a class other than
+    `quantized_linear` (exported through `.numpy()`) — `from_config` receives the values.
+    `_partial`: tensors and the `quantized_linear` variable are the two counterexamples below. -/
+theorem C09_keras_plain_forms_partial (c : Cls) (stored : List (String × Form))
+    (h : ∀ p ∈ stored, p.2.plain = true ∨
+          (p.1 = "qnoise_factor" ∧ p.2 = .variable ∧ c ≠ .quantized_linear)) :
+    kerasOutcome (configForms c stored) = .ok := by
+  rw [kerasOutcome_ok_iff]
+  intro p hp
+  unfold configForms at hp
+  obtain ⟨k, -, rfl⟩ := List.mem_map.1 hp
+  simp only
+  cases hl : stored.lookup k with
+  | none => simp [exportForm]
+  | some f =>
+    have hmem := mem_of_lookup hl
+    rcases h _ hmem with hpl | ⟨hk, hf, hc⟩
+    · simp only at hpl
+      cases f <;> simp [Form.plain] at hpl <;> simp [exportForm]
+    · simp only at hk hf
+      subst hk; subst hf
+      simp [exportForm, hc]
+
+/-- **Keras pair, counterexample 1** (every class, every serialised option): an option held as
+    a `tf.Tensor` is emitted as it is by `get_config`, becomes a `__tensor__` dictionary in
+    `serialize_keras_object` and reaches `cls.from_config` undecoded. -/
+theorem C09_keras_tensor_option_counterexample (c : Cls) (k : String) (hk : k ∈ serialised c) :
+    kerasOutcome (configForms c [(k, .tensor)]) ≠ .ok := by
+  intro h
+  rw [kerasOutcome_ok_iff] at h
+  have hm : (k, exportForm c k ((([(k, Form.tensor)] : List (String × Form)).lookup k).getD .literal))
+      ∈ configForms c [(k, .tensor)] := by
+    unfold configForms
+    exact List.mem_map.2 ⟨k, hk, rfl⟩
+  have := (h _ hm).2
+  simp [List.lookup, exportForm] at this
+
+/-- **Keras pair, counterexample 2**: `quantized_linear(use_variables=True)` that has been
+    called holds `qnoise_factor` in a `tf.Variable`; its `get_config` hands the variable out and
+    `serialize_keras_object` raises.  Every other class with the option exports `.numpy()`. -/
+theorem C09_keras_linear_qnoise_variable_counterexample :
+    kerasOutcome (configForms .quantized_linear [("qnoise_factor", .variable)]) = .serializeRaises ∧
+    ∀ c : Cls, c ≠ .quantized_linear →
+      kerasOutcome (configForms c [("qnoise_factor", .variable)]) = .ok := by
+  refine ⟨by decide, fun c hc => ?_⟩
+  cases c <;> first | exact absurd rfl hc | decide
+
+/-! ### non-vacuity of the strengthening-round hypotheses -/
+
+/-- every class has a reachable (hence canonical) default instance, in every world -/
+example (c : Cls) (w : World) : ∃ i, constructI w c [] [] = .ok i ∧ ReachableI i ∧ Canon i := by
+  have h : ∃ i, constructI w c [] [] = .ok i := by
+    cases c <;> exact ⟨_, rfl⟩
+  obtain ⟨i, hi⟩ := h
+  have hc := canon_of_constructI hi
+  exact ⟨i, hi, ⟨w, [], [], hc.1 ▸ hi⟩, hc.2⟩
+
+/-- `IgnoresBuildOnlyI` is satisfiable by a function that reads the world, an option and the
+    hidden state -/
+example : IgnoresBuildOnlyI (fun w i => (w.sigmoid, i.q.cls, i.q.get "max_value", i.hid)) := by
+  intro w a b hc h hh
+  simp only [hc, h "max_value" (by decide), hh]
 
 end QKV.Props.C09
